@@ -183,7 +183,7 @@ def c05(k, ctx):
     ctx.tlc_mc("MC_Arith", "MC_Arith_thorough.cfg" if ctx.thorough else "MC_Arith.cfg")
     ctx.vh("gen", "i2s")
     recs, rej = ctx.validate("Trace_C05")
-    ctx.require_events("Quant8", "Var8", "Layer8", "VarF", "LayerF")
+    ctx.require_events("Quant8", "Var8", "Layer8", "VarF", "LayerF", "QuantFam")
     for r in recs:
         if r["o"] != "ok":
             continue
@@ -196,7 +196,9 @@ def c05(k, ctx):
             ctx.nontrivial_keys.add(k.key(e, r["arith"], r["olds"], r["vars"]))
         elif e in ("VarF", "LayerF") and r["d"] >= 2:
             ctx.nontrivial_keys.add(k.key(e, r["arith"], r["i"]))
-    ctx.extra["arithmetics"] = len({r["arith"] for r in recs})
+        elif e == "QuantFam":
+            ctx.nontrivial_keys.add(k.key(e, r["dbg"]))
+    ctx.extra["arithmetics"] = len({r["arith"] for r in recs if "arith" in r})
     ctx.samples = [k.sample_case(recs, 5), k.sample_case(recs, 400), k.sample_case(recs, recs[-1]["i"])]
     ctx.assumptions = ["TLC 1.8 + Json/IOUtils", "harness built with overflow-checks and debug-assertions so wrapping arithmetic in /repo panics",
                        "float references (f64 sums) and their distance in centibels are computed by the harness; the tolerance and inequality are TLC's"]
